@@ -235,6 +235,41 @@ DESIGN_CONFIGS = {   # name: (N, MaxTime, faulty node, fault kind, dial kind, th
 }
 
 
+DATA_DESIGN = {   # property: [(name, data plane, N, MaxTime quick, MaxTime thorough, faulty node, fault kind)]
+    "C11": [("router-silent", "router", 3, 3, 8, 2, "silent"), ("router-restart", "router", 3, 0, 8, 2, "restart")],
+    "C13": [("switch-silent", "switch", 3, 3, 8, 2, "silent"), ("switch-restart", "switch", 3, 0, 8, 2, "restart")],
+}
+
+
+def data_design(pid, tier, out, cov):
+    """MC_Cloud.tla with the data plane switched on: interface frames for every destination at every quiet moment,
+    payload deliveries in any order, one node falling silent or restarting; invariants CacheOK / RouterDataOK; the
+    refutable NothingCached shows decisions do get cached / learned."""
+    wd = V.workdir(pid)
+    runs = {}
+    for name, dp, n, mtq, mtt, faulty, fk in DATA_DESIGN[pid]:
+        mt = mtq if tier == "quick" else mtt
+        if mt == 0:
+            continue      # thorough tier only
+        cfg = os.path.join(wd, "MC_Cloud_data_%s.cfg" % name)
+        with open(cfg, "w") as f:
+            f.write("SPECIFICATION Spec\nCONSTANTS DataPlane = \"%s\"\n N = %d\n MaxTime = %d\n Silent = %d\n FaultKind = \"%s\"\n DialKind = \"reconnect\"\n"
+                    " MAX_RETRIES <- McRetries\n LINGER <- McLinger\n OWN_RESET <- McOwnReset\n"
+                    "INVARIANT NodeInvariants\nINVARIANT CacheOK\nINVARIANT RouterDataOK\nCHECK_DEADLOCK FALSE\n" % (dp, n, mt, faulty, fk))
+        d = V.tlc_design("MC_Cloud.tla", cfg, pid, workers=8, timeout=3000)
+        runs["Cloud(%s, %d ticks)" % (name, mt)] = {"distinct": d.distinct, "generated": d.generated, "depth": d.depth}
+        if d.invariant_violated:
+            out.violation("design|cloud-data|%s|%s" % (name, d.invariant_violated[0]), "MC_Cloud.tla (%s) violates %s" % (name, d.invariant_violated[0]), {"tlc": d.out[-3000:]})
+    dp = DATA_DESIGN[pid][0][1]
+    sanity = V.tlc_design("MC_Cloud.tla", "MC_Cloud_%s_sanity.cfg" % dp, pid, workers=4, timeout=600, expect_ok=False)
+    if "NothingCached" not in sanity.invariant_violated:
+        raise V.ToolError("%s: MC_Cloud data-plane sanity invariant NothingCached was not refuted (vacuous model?)" % pid)
+    cov["cloud_data_design"] = {"module": "MC_Cloud.tla (DataPlane = %s)" % dp, "invariants": ["NodeInvariants", "CacheOK", "RouterDataOK"], "runs": runs,
+                                "sanity": "NothingCached refuted"}
+    cov["states"] = cov.get("states", 0) + sum(r["distinct"] for r in runs.values())
+    cov["transitions"] = cov.get("transitions", 0) + sum(r["generated"] for r in runs.values())
+
+
 def design(pid, tier, out, cov):
     """TLC explores MC_Cloud.tla (every delivery order of the datagrams of a tick, optional silence / crash-restart of
     one node) with the invariants of `pid`; the refutable sanity invariant shows the model is not vacuous."""
@@ -246,7 +281,7 @@ def design(pid, tier, out, cov):
             continue
         cfg = os.path.join(wd, "MC_Cloud_%s_%s.cfg" % (name, pid))
         with open(cfg, "w") as f:
-            f.write("SPECIFICATION Spec\nCONSTANTS N = %d\n MaxTime = %d\n Silent = %d\n FaultKind = \"%s\"\n DialKind = \"%s\"\n"
+            f.write("SPECIFICATION Spec\nCONSTANTS DataPlane = \"off\"\n N = %d\n MaxTime = %d\n Silent = %d\n FaultKind = \"%s\"\n DialKind = \"%s\"\n"
                     " MAX_RETRIES <- McRetries\n LINGER <- McLinger\n OWN_RESET <- McOwnReset\n" % (n, mt, faulty, fk, dk))
             for i in invs:
                 f.write("INVARIANT %s\n" % i)
